@@ -4,6 +4,10 @@
     doc <id> <arena>                      remember an arena under <id>; answers "wf=0|1"
     eval <id> <env> <start> <expr>        answers "model=<result> spec=<result>"
     store <events…>                       answers "arena=<arena dump> wf=0|1"
+    jsontext <xhex>                       the JSON text level (Xsel/JsonText.lean): answers
+                                          "toks=(toks <t>…)" (token syntax of `decJTok`), "err" when the
+                                          characters are not a stream of JSON texts, "unsup" when the
+                                          bytes are not UTF-8 or an exponent has more than 5 digits
 -/
 import Xsel.Protocol
 import Xsel.SpecStore
@@ -86,6 +90,21 @@ def synAnswer (cs : Chars) (given : Option Expr) : String :=
     | none => "-"
   s!"toks={encLex (lex lexModel cs)} build={verdict m} sbuild={verdict sp} ast={ast} rt={rt} kf={kf}"
 
+/-- does the text contain `e`/`E`, an optional sign and more than 5 digits?  The model computes the
+    exact rational `10^e` of a number literal; such exponents are left out of the comparison (they
+    only occur in numbers that are 0, out of range, or have thousands of digits). -/
+def hugeExp (cs : Chars) : Bool :=
+  let rec go : Chars → Bool
+    | [] => false
+    | c :: r =>
+      (if c == 'e' || c == 'E' then
+        let r1 := match r with
+          | s :: t => if s == '+' || s == '-' then t else r
+          | [] => r
+        decide (5 < (r1.takeWhile isDigit).length)
+       else false) || go r
+  go cs
+
 def findDoc (st : DState) (id : String) : Option Arena := (st.docs.find? (fun p => p.1 == id)).map (·.2)
 
 def handle (st : DState) (line : String) : DState × String :=
@@ -151,6 +170,15 @@ def handle (st : DState) (line : String) : DState × String :=
               (st, s!"ok events={encEvs evs} specok={if ok then 1 else 0}")
             | none => (st, "bad-vals")
           | _ => (st, s!"ok events={encEvs evs}")
+  | some (.list [.atom "jsontext", xs]) =>
+    -- the TEXT level: what `json.Decoder.Token()` yields for these characters
+    match decStrS xs with
+    | none => (st, "unsup")
+    | some cs =>
+      if hugeExp cs then (st, "unsup")
+      else match Json.tokensOfText cs with
+        | some ts => (st, "toks=" ++ encJToks ts)
+        | none => (st, "err")
   | some (.list [.atom "html", dom]) =>
     match decHTree dom with
     | none => (st, "bad-dom")
